@@ -1,6 +1,7 @@
 package main
 
 import (
+	"github.com/mandykoh/prism/meta"
 	"bytes"
 	"encoding/binary"
 	"fmt"
@@ -413,6 +414,53 @@ func corrC17(c *corrCtx) {
 						map[string]interface{}{"how": how, "got": hexs(trunc([]byte(ds), 100)), "err": fmt.Sprint(derr), "panic": fmt.Sprint(dpan), "ntags": len(d.tags)})
 				}
 			}
+		}
+	}
+	// one meta.Data value reused for several profiles in turn (as a loader that recycles its result
+	// would): each ICCProfile() must describe the data set last
+	{
+		md := &meta.Data{}
+		var prevWant [][]byte
+		for i := 0; i < 60; i++ {
+			d, want := randIccDesc(r, 6)
+			data := d.build()
+			md.SetICCProfileData(data)
+			for rep := 0; rep < 1+i%2; rep++ {
+				pr, err := md.ICCProfile()
+				if err != nil || pr == nil {
+					c.direct(fmt.Sprintf("C17/reused-data/%d", i), "ICCProfile() of a reused meta.Data does not return the profile set last",
+						map[string]interface{}{"step": i, "err": fmt.Sprint(err), "nil_profile": pr == nil})
+					break
+				}
+				ds, derr, dpan := safeDescription(pr)
+				if want == nil {
+					continue
+				}
+				okd := false
+				for _, w := range want {
+					if derr == nil && dpan == nil && ds == string(w) {
+						okd = true
+					}
+				}
+				if !okd {
+					stale := false
+					for _, w := range prevWant {
+						if ds == string(w) {
+							stale = true
+						}
+					}
+					c.direct(fmt.Sprintf("C17/reused-data-desc/%d", i), "the description of a reused meta.Data is not that of the profile set last",
+						map[string]interface{}{"step": i, "got": hexs(trunc([]byte(ds), 80)), "err": fmt.Sprint(derr), "is_previous_profiles_description": stale})
+					break
+				}
+			}
+			if i%7 == 3 {
+				md.SetICCProfileError(fmt.Errorf("damaged"))
+				if pr, err := md.ICCProfile(); err == nil || pr != nil {
+					c.direct(fmt.Sprintf("C17/reused-data-error/%d", i), "ICCProfile() of a reused meta.Data ignores the error set last", nil)
+				}
+			}
+			prevWant = want
 		}
 	}
 	// the real profiles in the repository
